@@ -256,4 +256,69 @@ Section Clone.
         rewrite (IHr _ _ _ _ Er' (abs_kids_ext _ _ e1 _ _ Ear)). reflexivity. }
     rewrite (abs_kids_ext _ _ [mkNode (hn_data nd) kids'] _ _ (Hk _ _ _ _ _ Ek Ets)). reflexivity.
   Qed.
+
+  (** assignment to one Schema object: replace the node at address [b] *)
+  Fixpoint upd (h : heap) (b : addr) (nd : hnode) : heap :=
+    match h, b with
+    | [], _ => []
+    | _ :: r, O => nd :: r
+    | x :: r, S b' => x :: upd r b' nd
+    end.
+
+  Lemma nth_error_upd_other : forall h b nd x, x <> b -> nth_error (upd h b nd) x = nth_error h x.
+  Proof.
+    induction h as [|y r IH]; intros b nd x Hx; [destruct b; reflexivity|].
+    destruct b as [|b]; destruct x as [|x]; cbn; try reflexivity; [congruence|].
+    apply IH. congruence.
+  Qed.
+
+  Lemma nth_error_upd_same : forall h b nd, b < length h -> nth_error (upd h b nd) b = Some nd.
+  Proof.
+    induction h as [|y r IH]; intros b nd Hb; cbn in Hb; [lia|].
+    destruct b as [|b]; cbn; [reflexivity|]. apply IH. lia.
+  Qed.
+
+  Lemma upd_app_ge : forall h e b nd, length h <= b -> upd (h ++ e) b nd = h ++ upd e (b - length h) nd.
+  Proof.
+    induction h as [|y r IH]; intros e b nd Hb; cbn in *; [now rewrite Nat.sub_0_r|].
+    destruct b as [|b]; [lia|]. cbn. f_equal. apply IH. lia.
+  Qed.
+
+  (** the tree at [a] depends only on the objects reachable from [a] *)
+  Lemma abs_agree : forall m h h2 a,
+    (forall b, reach h a b -> nth_error h2 b = nth_error h b) -> abs m h2 a = abs m h a.
+  Proof.
+    induction m as [|m IH]; intros h h2 a H; [reflexivity|].
+    rewrite !abs_unfold. rewrite (H a (reach_refl h a)).
+    destruct (nth_error h a) as [nd|] eqn:En; [|reflexivity]. f_equal.
+    assert (Hk : forall ks, (forall k c, In (k, c) ks -> In (k, c) (hn_kids nd)) ->
+                 abs_kids m h2 ks = abs_kids m h ks).
+    { induction ks as [|[k c] r IHr]; intros Hin; [reflexivity|]. cbn [abs_kids].
+      rewrite (IH h h2 c).
+      - rewrite IHr; [reflexivity|]. intros k0 c0 H0. apply Hin. now right.
+      - intros b Hr. apply H. eapply reach_step; [exact En| |exact Hr]. apply Hin. now left. }
+    apply Hk. auto.
+  Qed.
+
+  (** C20_mutate_clone: assigning to any object of the clone (all of them are new, by
+      [clone_fresh]) leaves every tree of the original heap as it was *)
+  Theorem clone_mutate_clone n h a h' a' :
+    clone n h a = Some (h', a') ->
+    forall b nd', length h <= b ->
+    forall m x t, abs m h x = Some t -> abs m (upd h' b nd') x = Some t.
+  Proof.
+    intros H b nd' Hb m x t Hx. destruct (clone_P _ _ _ _ _ H) as [(e & -> & _) _].
+    rewrite upd_app_ge by exact Hb. now apply abs_ext.
+  Qed.
+
+  (** C20_mutate_original: assigning to any object that existed before the call (the
+      original tree included) leaves the tree of the clone as it was *)
+  Theorem clone_mutate_original n h a h' a' :
+    clone n h a = Some (h', a') ->
+    forall b nd', b < length h ->
+    forall m, abs m (upd h' b nd') a' = abs m h' a'.
+  Proof.
+    intros H b nd' Hb m. apply abs_agree. intros x Hr.
+    apply nth_error_upd_other. pose proof (clone_fresh _ _ _ _ _ H x Hr). lia.
+  Qed.
 End Clone.
